@@ -26,13 +26,13 @@ def ity_tag(t): return t.name
 # ----------------------------------------------------------------------------------------------
 # reads
 # ----------------------------------------------------------------------------------------------
-def read_it_case(ty, shape, ishape, isa, ity=INT, form='ctor', const=False, macros=()):
+def read_it_case(ty, shape, ishape, isa, ity=INT, form='ctor', const=False, macros=(), std='c++14'):
     """C = A(P)   flat index tensor of the parent's rank (rank 1: any length)."""
     n = prod(shape); K = prod(ishape)
     a = Buf('a', ty, n, 'in'); p = Buf('p', ity, K, 'in')
     role = 'inout' if form in ('add', 'sub') else 'out'
     c = Buf('c', ty, K, role)
-    mode, cfg = mode_cfg(ty, isa, macros=macros)
+    mode, cfg = mode_cfg(ty, isa, std, macros)
     A = 'A'
     decl = '%s %s' % (town(ty, shape, 'a'), it_decl('p', ity, ishape))
     if const: decl += ' const Tensor<%s,%s> &CA = A;' % (ty.cpp, dims(shape)); A = 'CA'
@@ -142,13 +142,13 @@ def fix_rkind(ty, op, rkind):
     if ty.kind == 'int' and op == '-=' and rkind == 'sum': return 'tensor'
     return rkind
 
-def write_it_case(ty, shape, ishape, op, rkind, isa, ity=INT, macros=()):
+def write_it_case(ty, shape, ishape, op, rkind, isa, ity=INT, macros=(), std='c++14'):
     """A(P) op= rhs   P symbolic, in range, duplicate-free."""
     n = prod(shape); K = prod(ishape)
     a = Buf('a', ty, n, 'inout'); p = Buf('p', ity, K, 'in')
     bufs = [a, p]; req = in_range(p, K, n) + dup_free(p, K); rep = [replay_perm('p', K, n, ity)]; scal = []
     decl = [town(ty, shape, 'a'), it_decl('p', ity, ishape)]
-    mode, cfg = mode_cfg(ty, isa, macros=macros)
+    mode, cfg = mode_cfg(ty, isa, std, macros)
     rkind = fix_rkind(ty, op, rkind)
     rt, rel = rhs_kind(rkind, ty, K, ishape, bufs, req, rep, scal, decl)
     body = '    %s\n    A(P) %s %s;\n    %s' % (' '.join(decl), op, rt, copy_out('A', 'a', n))
@@ -208,13 +208,13 @@ def write_axes_case(ty, shape, ax0, ax1, op, rkind, isa, macros=()):
     cid = 'C19/write-axes/%s/%s/%s,%s/%s/%s/%s' % (ty.name, shp(shape), tag0, tag1, OPS[op], rkind, cfg.tag())
     return Case(cid, 'C19', body, bufs, ens, mode, cfg, scalars=scal, requires=req, replay_values='\n'.join(rep) or None)
 
-def mask_write_case(ty, shape, op, rkind, isa, macros=()):
+def mask_write_case(ty, shape, op, rkind, isa, macros=(), std='c++14'):
     """A(M) op= rhs   all 2^n masks at once."""
     n = prod(shape)
     a = Buf('a', ty, n, 'inout'); m = Buf('m', BOOL, n, 'in')
     bufs = [a, m]; req = is_bool(m, n); rep = []; scal = []
     decl = [town(ty, shape, 'a'), 'Tensor<bool,%s> M(m);' % dims(shape)]
-    mode, cfg = mode_cfg(ty, isa, macros=macros)
+    mode, cfg = mode_cfg(ty, isa, std, macros)
     rkind = fix_rkind(ty, op, rkind)
     rt, rel = rhs_kind(rkind, ty, n, shape, bufs, req, rep, scal, decl)
     body = '    %s\n    A(M) %s %s;\n    %s' % (' '.join(decl), op, rt, copy_out('A', 'a', n))
@@ -317,6 +317,12 @@ def cases(tier, seed):
             out.append(write_axes_case(INT, shape, ('it', 2, INT), ('sym',), rng.choice(INT_OPS), 'tensor', isa))
             out.append(write_axes_case(INT, shape, ('sym',), ('it', 2, INT), rng.choice(INT_OPS), 'tensor', isa))
             if T: out.append(write_axes_case(INT, shape, ('it', 2, INT), ('it', 2, INT), rng.choice(INT_OPS), 'tensor', isa, macros=VEC))
+        # ---- C++17 (if-constexpr branches) ---------------------------------------------------------------------------------
+        out.append(read_it_case(anyty(), (10,), (V + 1 if V + 1 <= 9 else 9,), isa, form='ctor', std='c++17'))
+        out.append(write_it_case(INT, (7,), (3,), rng.choice(INT_OPS), 'tensor', isa, std='c++17'))
+        out.append(write_it_case(INT, (7,), (3,), rng.choice(INT_OPS), 'tensor', isa, macros=VEC, std='c++17'))
+        out.append(mask_write_case(INT, (9,), rng.choice(INT_OPS), 'tensor', isa, std='c++17'))
+        out.append(mask_write_case(ftype(), (2, 3), rng.choice(ALL_OPS), 'tensor', isa, std='c++17'))
         # ---- boolean masks: all 2^n masks at once --------------------------------------------------------------------------
         for shape in ([(1,), (4,), (9,), (12,), (3, 4), (2, 3, 2)] if not T else [(1,), (2,), (3,), (5,), (8,), (9,), (12,), (16,), (2, 3), (3, 4), (4, 4), (2, 3, 2), (2, 2, 2, 2)]):
             for op in INT_OPS:
@@ -329,3 +335,18 @@ def cases(tier, seed):
     for c in out:
         if c.cid not in seen: seen.add(c.cid); res.append(c)
     return res
+
+def evidence_extra(tier):
+    T = tier == 'thorough'
+    return {'box': {
+        'index_tensors': 'symbolic buffers: every in-range index vector of the given length (duplicate-free for writes) in one proof; element types int, long long, size_t (64-bit ones with <= 5 indices)',
+        'reads': 'rank-1 parents of 2..16 elements, index lengths 1..5 and V-1, V, V+1, 2V+1 per ISA (<= %d); rank-2/3 parents <= 16 elements with flat index tensors of the same rank; A(it0,it1), A(it,fseq), A(fseq,it), A(it,int), A(int,it) with literal and run-time (symbolic) integers; consumers: constructor, assignment, += / -=, expression, 1-D and 2-D range views' % (33 if T else 17),
+        'writes': 'A(it) op= {literal, symbolic scalar, tensor, tensor+tensor, -tensor, index view of another tensor, range view of another tensor}; parents <= %d elements, <= %d indices; A(it0,it1) and mixed forms on up to 4x4; with and without FASTOR_USE_VECTORISED_EXPR_ASSIGN' % (16, 5),
+        'masks': 'symbolic Tensor<bool,...>: all 2^n masks at once, n in %s; ranks 1-%d' % ('1..16' if T else '{1,4,9,12}', 4 if T else 3),
+        'operators': '= += -= on int (SYM); = += -= *= /= on float, double (UF, pipeline P0; compound operators through symbolic scatter addresses only for <= 6 elements / 2 indices)',
+    },
+    'not_covered': ['index-tensor views of TensorMap (no such overload), mask views with a TensorMap parent or a TensorMap<bool> mask (declared overloads return an incomplete type: do not compile)',
+                    'view /= floating-point scalar (reciprocal form; scalar division belongs to C02/C05)',
+                    'int *= and /= (symbolic 32-bit multiplication / division is not tractable in mode SYM)',
+                    'reading *through* a mask view (the property only speaks about assignment through masks)',
+                    'index tensors longer than 33 / parents larger than 16 elements']}
